@@ -15,11 +15,13 @@ From Coq Require Import String.
 From TW Require Import Bytes Floats Values Ast GenToken GenParser Lexer Parser Builtins Eval Expr ExprSem GenTie.
 Open Scope N_scope.
 
-Theorem C01_model_evaluates_like_the_specification env e fs :
+(* en is the chain of scopes (innermost first); the specification sees it flattened, so an inner
+   binding shadows an outer one *)
+Theorem C01_model_evaluates_like_the_specification (en : env) e fs :
   lits_ok e -> (size e <= fs)%nat ->
   exists n, forall fm, (n <= fm)%nat ->
-    meets (eval_expr cx0 fm [env] (compile e)) (sem model_call_spec fs env e).
-Proof. exact (model_evaluates_like_the_specification env e fs). Qed.
+    meets (eval_expr cx0 fm en (compile e)) (sem model_call_spec fs (flat_env en) e).
+Proof. exact (model_evaluates_like_the_specification en e fs). Qed.
 Print Assumptions C01_model_evaluates_like_the_specification.
 
 Theorem C01_binary_operators_are_typed ln o a b : meets (eval_infix_op ln (op_sym o) a b) (sem_bin o a b).
